@@ -289,18 +289,18 @@ def draw(rng, i):
     if which in (0, 1, 2):
         k = rng.choice([1, 2, 2, 3, 3, 4])
         n = rng.randint(1, {1: 6, 2: 8, 3: 7, 4: 6}[k])
-        cls = rng.choice(["small", "small", "ties", "zeros", "equal", "nearperfect"])
+        cls = rng.choice(["small", "small", "ties", "zeros", "equal", "nearperfect", "big", "bignear"])
         name = rng.choice(OBJ3 + OBJ3 + ("ksmall", "klarge"))
         kp = rng.randint(1, k + 1) if name in ("ksmall", "klarge") else None
         return {"kind": "cg", "alg": "cg", "k": k, "values": gen.part_values(rng, cls, n, k), "cls": cls, "objective": [name, kp],
                 "cg_mask": rng.randrange(16), "manager": rng.choice(["contents", "contents", "sums"])}
     if which == 3:
         n = rng.randint(1, 10)
-        cls = rng.choice(["small", "ties", "zeros", "equal"])
+        cls = rng.choice(["small", "ties", "zeros", "equal", "big", "bignear", "bignear"])
         return {"kind": "cbldm", "alg": "cbldm", "k": 2, "values": gen.part_values(rng, cls, n, 2), "cls": cls, "cbldm_d": rng.choice([None, None, 1, 2, 3])}
     k = rng.choice([2, 3, 3, 4])
     n = rng.randint(1, {2: 10, 3: 8, 4: 7}[k])
-    cls = rng.choice(["small", "small", "ties", "zeros", "nearperfect"])
+    cls = rng.choice(["small", "small", "ties", "zeros", "nearperfect", "bignear"])
     return {"kind": "ckkgen", "alg": "ckkgen", "k": k, "values": gen.part_values(rng, cls, n, k), "cls": cls, "manager": rng.choice(["contents", "sums"])}
 
 
